@@ -156,6 +156,31 @@ def run_case(ctx, case):
     if kind == "solve":
         inst = case["instance"]
         instance = gen.build(inst)
+        if case["seed"] % 5 == 3:
+            # the instance went through a pickle / a deep copy before it reached the solver (a worker
+            # process, a cache)
+            import copy
+            import pickle
+            instance = pickle.loads(pickle.dumps(instance)) if case["seed"] % 2 else copy.deepcopy(instance)
+            ctx.count("instances_restored_from_a_pickle_or_deep_copy")
+        elif case["seed"] % 5 == 4:
+            # operations of a user's own subclass (a task label; several tasks share a label)
+            from job_shop_lib import JobShopInstance, Operation
+
+            class Task(Operation):
+                __slots__ = ("label",)
+
+                def __init__(self, machines, duration, label):
+                    super().__init__(machines, duration)
+                    self.label = label
+
+                def __repr__(self):
+                    return f"Task({self.label})"
+            instance = JobShopInstance(
+                [[Task(list(ms), dd, "drill" if (j + p) % 2 else "mill")
+                  for p, (ms, dd) in enumerate(zip(mj, dj))]
+                 for j, (mj, dj) in enumerate(zip(inst["machines"], inst["durations"]))], name="tasks")
+            ctx.count("instances_made_of_a_user_subclass_of_operation")
         if case["seed"] % 6 == 0:
             # instances carry their own metadata (benchmark files do: recorded optimum, bounds ...)
             # - also under names the solver uses for its own report
@@ -219,6 +244,26 @@ def run_case(ctx, case):
             shared.max_time_in_seconds = None
             ctx.count("limit_removed_between_solves")
         earlier = []
+        short_lived = case["seed"] % 4 == 2
+        if short_lived:
+            # a long-lived solver object fed short-lived instances: nothing of an earlier solve is
+            # kept by the caller (freed objects make room for the next instance)
+            ctx.count("long_lived_solver_short_lived_instances")
+            seq = list(case["instances"]) * 3
+            for k, inst in enumerate(seq):
+                instance = gen.build(inst)
+                try:
+                    S1 = shared.solve(instance)
+                except Exception as e:
+                    ctx.violation("c03_solver_raised", {"error": repr(e)[:300], "position": k, "instance": inst,
+                                                        "note": "solver object reused, earlier instances dropped"})
+                    return
+                ctx.count("reused_solver_solves"); ctx.count("solves")
+                judge(ctx, inst, instance, S1, f"long-lived solver, {k} earlier (dropped) instances",
+                      expect_optimal_oracle=k < len(case["instances"]))
+                del S1, instance
+            ctx.note_case(case, True, fingerprint=str(hash(tuple(gen.fingerprint(i) for i in case["instances"]))))
+            return
         for k, inst in enumerate(case["instances"]):
             instance = gen.build(inst)
             try:
